@@ -13,6 +13,10 @@ open ALV.Driver.C04 (getMem varJson atomJson gainJson errJson)
     num, den : [[power, coefficient], …]   raw pairs of `ZFilter(num, den)`
     mem (optional, as in C04), zero : q, xs : [q …]
     numdiv, dendiv (optional) : a Stream by which the numerator / denominator `Poly` is divided
+  entry "call2": as "call" plus  second : {mem (optional), zero, xs}  — the same filter object called again
+    payload: {"model": {"first": <as for "call">, "second": {"err":kind} | {"out":[…]}, "gainpath":bool,
+                        "den_after": the object's denominator after the first call (shapes)},
+              "spec":  {"first": {"err"} | {"out"}, "second": {"err"} | {"out"}}}
   entry "expr":
     tree : ["z",k] | ["c",q] | ["s",[q…]] | ["neg",t] | ["add"|"sub"|"mul"|"div", l, r]   (+ mem, zero, xs)
   payload: {"model": {"err":kind}
@@ -142,6 +146,39 @@ def handle (entry : String) (j : Json) : Except String Json := do
       match specCallTV (divS num numdiv) (divS den dendiv) mem zero xs with
       | .error e => errJson e
       | .ok out => Json.mkObj [("out", rats out)]
+    pure <| Json.mkObj [("model", model), ("spec", spec)]
+  | "call2" =>
+    -- two calls of the SAME filter object, the first output consumed to its end before the second
+    -- call: "second" : {mem (optional), zero, xs}.  model = the code as it is (`callTwice`: the
+    -- coefficient iterators as the first call left them; a Stream-gain call deletes denpoly[0]);
+    -- spec = the contract over the history (`specCallTwice`: the coefficient streams continued)
+    let num ← getList getPair (← field j "num")
+    let den ← getList getPair (← field j "den")
+    let mem ← getMem j
+    let zero ← getRat (← field j "zero")
+    let xs ← getList getRat (← field j "xs")
+    let sec ← field j "second"
+    let mem2 ← getMem sec
+    let zero2 ← getRat (← field sec "zero")
+    let xs2 ← getList getRat (← field sec "xs")
+    let outJson (r : Except Err (List Rat)) : Json :=
+      match r with
+      | .error e => errJson e
+      | .ok out => Json.mkObj [("out", rats out)]
+    let model : Json :=
+      match normalise (mkPoly num) (mkPoly den) with
+      | .error e => Json.mkObj [("first", errJson e), ("second", errJson e), ("init", Json.bool true)]
+      | .ok (n0, d0) =>
+        let r := callTwice n0 d0 mem zero xs mem2 zero2 xs2
+        Json.mkObj [("first", callJson n0 d0 mem zero xs), ("second", outJson (r.2.map Prod.fst)),
+                    ("gainpath", Json.bool (coefAt d0 0).isStream),
+                    ("den_after", pairsJson (match r.1 with
+                      | .ok _ => (match coefAt d0 0 with
+                                  | .strm _ => denAfterCall n0 d0
+                                  | .const _ => d0)
+                      | .error _ => denAfterCall n0 d0))]
+    let r := specCallTwice num den mem zero xs mem2 zero2 xs2
+    let spec : Json := Json.mkObj [("first", outJson r.1), ("second", outJson r.2)]
     pure <| Json.mkObj [("model", model), ("spec", spec)]
   | "expr" =>
     -- the filter is built by ZFilter / Poly arithmetic (C07 model at Stream coefficients); the
